@@ -32,6 +32,10 @@ AQ = ["quantized_relu(6,2)", "quantized_bits(6,2,1)", "quantized_relu(4,1)", "qu
       "quantized_relu(1,0)", "quantized_relu(1,1)"]
 
 
+PAIRS = [("quantized_relu_po2(4)", "ternary(alpha=1.0)"), ("quantized_relu_po2(4)", "binary(alpha=1.0)"),
+         ("quantized_relu_po2(3,max_value=1)", "ternary(alpha=1.0)"), ("quantized_po2(4)", "binary(alpha=1.0)")]
+
+
 def pick(rng, l):
   return l[int(rng.integers(0, len(l)))]
 
@@ -52,6 +56,15 @@ def gen_model(rng, idx, directed=None):
   import tensorflow.keras.layers as L
   from tensorflow.keras import Model, Input
   import qkeras
+  if directed is not None and directed >= len(WQ):
+    # an UNSIGNED power-of-two activation feeding a signed +-1 kernel (and the signed po2 control): the multiplexer's product type needs
+    # a sign bit on top of the po2 operand's bits; with extreme weights and inputs the sum sits at the corner of the accumulator
+    act, ws = PAIRS[directed - len(WQ)]
+    meta = {"kind": "act-kernel-pair", "layers": [(f"d{idx}_0", "QDense", ws, None)], "activation": act}
+    inp = Input((3,), name=f"i{idx}")
+    x = qkeras.QActivation(act, name=f"a{idx}_0")(inp)
+    x = qkeras.QDense(int(rng.integers(1, 3)), kernel_quantizer=ws, use_bias=False, name=f"d{idx}_0")(x)
+    return Model(inp, x, name=f"qm{idx}"), meta
   if directed is not None:
     # one bias-free dense layer fed directly by the source quantizer: with extreme weights and extreme inputs every
     # product and the whole sum sit at the corner of the reported multiplier / accumulator types
@@ -175,13 +188,15 @@ def main():
   texts, items = [], []
   n_layers = n_ok = n_est = 0
   sample = None
-  for i in range(n + len(WQ)):
+  for i in range(n + len(WQ) + len(PAIRS)):
     try:
       m, meta = gen_model(rng, i, directed=(i - n if i >= n else None))
     except Exception as e:  # pylint: disable=broad-except
       rep.violation(f"build-{i}", f"model construction raised {type(e).__name__}: {str(e)[:300]}", {})
       continue
     sqs = pick(rng, SRC)
+    if meta.get("kind") == "act-kernel-pair":
+      sqs = "quantized_bits(18,8,1)"       # wide and fine enough to drive a 4-bit po2 activation to both ends of its exponent range
     sq = get_quantizer(sqs)
     step, clo, chi = src_grid(sq)
     wlayers = [l for l in m.layers if type(l).__name__ in ("QDense", "QConv1D", "QConv2D", "QDepthwiseConv2D")]
@@ -206,6 +221,9 @@ def main():
       k0 = wlayers[0].get_quantizers()[0](tf.constant(wlayers[0].get_weights()[0])).numpy()
       xs = [rng.integers(clo, chi + 1, size=(3,) + ishape).astype(np.float32) * step,
             np.full((1,) + ishape, chi * step, dtype=np.float32), np.full((1,) + ishape, clo * step, dtype=np.float32)]
+      if meta.get("kind") == "act-kernel-pair":
+        xs.append(np.full((1,) + ishape, step, dtype=np.float32))          # the smallest magnitudes: the low end of the exponent range
+        xs.append(np.full((1,) + ishape, 3 * step, dtype=np.float32))
       if type(wlayers[0]).__name__ == "QDense":
         xs.append(np.where(k0[:, 0] >= 0, chi * step, clo * step).astype(np.float32)[None])
         xs.append(np.where(k0[:, 0] >= 0, clo * step, chi * step).astype(np.float32)[None])
@@ -298,7 +316,7 @@ def main():
             fid = "C18-leaky-relu-po2-reported-unsigned"
           # ternary / binary product templates count the sign inside int_bits (int_bits == bits): the accumulator built from them has
           # NEGATIVE fraction bits (C17 known finding C17-accumulator-of-ternary-binary-products seen from the model)
-          if fid is None and int(mul.bits) - int(mul.int_bits) - int(bool(mul.is_signed)) < 0:
+          if fid is None and not getattr(mul, "is_po2", 0) and int(mul.bits) - int(mul.int_bits) - int(bool(mul.is_signed)) < 0:
             fid = "C18-ternary-binary-product-template-negative-fraction-bits"
           # po2 kernel on po2 activations: the Adder multiplier rule under-sizes the exponent range in two operand classes (C16 known findings)
           if fid is None and getattr(iq, "is_po2", 0) and getattr(wq_t, "is_po2", 0):
